@@ -38,7 +38,7 @@ DESCS = ["scalar", "two", "array", "constdim", "attrs", "xobj", "falsy"]
 def cases(tier, seed):
     farmers = ["runner", "runner-df", "harv-jl", "harv-h5", "sampler"]
     inputs = [("grid", 6), ("cases", 4), ("mix", 6), ("grid", 8), ("cases", 1),
-              ("grid", 1), ("mix2", 12)]
+              ("grid", 1), ("mix2", 12), ("casesdup", 3)]
     reqs = [("batchsize", 2), ("num_batches", 3), ("default", None),
             ("batchsize", 5)]
     for desc, far, (kind, n), (mode, req), shuffle, rl in itertools.product(
@@ -61,7 +61,7 @@ def cases(tier, seed):
             yield {"desc": desc, "farmer": far, "kind": kind, "n": n,
                    "mode": mode, "req": req, "shuffle": shuffle, "reload": rl,
                    "policy": pol}
-            if kind == "mix2":
+            if kind in ("mix2", "casesdup"):
                 continue
             if pol in (None, (None, None), (None, "disjoint")) and (
                     tier == "thorough" or h == 3):
@@ -229,6 +229,9 @@ def check_case(case):
         # alphabetical order, sown through sow_cases
         combos, fn_args, cs = ([["z", [1, 2, 3]], ["c", [10, 20]]],
                                ["a", "b"], [[3, 7], [1, 2]])
+    elif kind == "casesdup":
+        # a case list that names the same case twice
+        combos, fn_args, cs = None, ["a", "b"], [[3, 7], [1, 2], [3, 7]]
     else:
         combos, fn_args, cs = build_inputs(n, kind)
     argnames = list(fn_args or []) + [a for a, _ in (combos or [])]
